@@ -67,7 +67,7 @@ func (it *c20Iter) blocking() bool { return it.kind == "queue-iter" || strings.H
 func (it *c20Iter) reverse() bool  { return strings.Contains(it.kind, "-rev") }
 
 func runC20(r *kit.Run) {
-	n := int64(r.Scale(1400, 80000))
+	n := int64(r.Scale(1400, 400000))
 	for i := int64(0); i < n && !r.Stopped(); i++ {
 		if !r.Mine(i) {
 			continue
